@@ -76,3 +76,4 @@ pub unsafe extern "C" fn clock_gettime(clk: libc::clockid_t, ts: *mut libc::time
     }
     libc::syscall(libc::SYS_clock_gettime, clk, ts) as libc::c_int
 }
+
